@@ -90,6 +90,31 @@ func genFaultScn(rng *rand.Rand, maxN int, phase time.Duration) faultScn {
 			sc.Actions = append(sc.Actions, faultAction{At: t, Kind: "update", A: rng.Intn(sc.N)})
 		}
 	}
+	// "veteran" restarts: the node that is restarted on its address had already raised its incarnation
+	// several times in its first life (the peers remember a high one) and changes its metadata again
+	// soon after coming back
+	var extra []faultAction
+	for i, a := range sc.Actions {
+		if a.Kind != "restart" || rng.Intn(2) == 0 {
+			continue
+		}
+		var crashAt time.Duration
+		for _, b := range sc.Actions[:i+1] {
+			if (b.Kind == "crash" || b.Kind == "hang" || b.Kind == "unreach") && b.A == a.A {
+				crashAt = b.At
+			}
+		}
+		if crashAt < 2*time.Second {
+			continue
+		}
+		for k := 2 + rng.Intn(3); k > 0; k-- {
+			extra = append(extra, faultAction{At: time.Duration(rng.Int63n(int64(crashAt))), Kind: "update", A: a.A})
+		}
+		if after := a.At + time.Duration(1+rng.Intn(5))*time.Second; after < phase {
+			extra = append(extra, faultAction{At: after, Kind: "update", A: a.A})
+		}
+	}
+	sc.Actions = append(sc.Actions, extra...)
 	sortActions(sc.Actions)
 	return sc
 }
